@@ -1,0 +1,37 @@
+//go:build verif
+
+package radius
+
+import (
+	"context"
+	"fmt"
+	"net"
+	"sync/atomic"
+)
+
+// Verification hooks for the CoA/Disconnect listener (C09 and C15 of /verif).  Add-only, compiled only
+// with -tags verif.  The body of receiveLoop is not separable from the loop, so the harness drives the
+// REAL loop over a loopback UDP socket; these wrappers only let it run that loop in a goroutine of its
+// own (so that a panic of the listener is observable with recover) and learn the bound address.
+
+// ListenForVerif binds the server's UDP socket and marks it running, as Start does, but does not
+// start the receive goroutine.
+func (s *CoAServer) ListenForVerif() (net.Addr, error) {
+	addr, err := net.ResolveUDPAddr("udp", s.addr)
+	if err != nil {
+		return nil, fmt.Errorf("failed to resolve address: %w", err)
+	}
+	conn, err := net.ListenUDP("udp", addr)
+	if err != nil {
+		return nil, fmt.Errorf("failed to listen: %w", err)
+	}
+	s.conn = conn
+	atomic.StoreInt32(&s.running, 1)
+	return conn.LocalAddr(), nil
+}
+
+// ReceiveLoopForVerif runs the unmodified receiveLoop in the caller's goroutine until Stop or ctx.Done.
+func (s *CoAServer) ReceiveLoopForVerif(ctx context.Context) { s.receiveLoop(ctx) }
+
+// ParseAttributesForVerif exposes parseAttributes.
+func ParseAttributesForVerif(data []byte) ([]Attribute, error) { return parseAttributes(data) }
